@@ -26,10 +26,11 @@ pub fn expand(input: &DeriveInput, trait_name: &'static str) -> Result<TokenStre
         syn::Type::TraitObject(obj) if obj.bounds.len() > 1 => quote! { (#field_type) },
         _ => quote! { #field_type },
     };
-    // `Self` in the field type means the deriving type, not a reference to it.
+    // `Self` in the field type, or in the type's own bounds, means the deriving type, not a
+    // reference to it.
     let (_, self_ty_generics, _) = input.generics.split_for_impl();
-    let field_type =
-        crate::utils::replace_self(&field_type, &quote! { #input_type #self_ty_generics });
+    let self_ty = quote! { #input_type #self_ty_generics };
+    let field_type = crate::utils::replace_self(&field_type, &self_ty);
 
     for ref_type in info.ref_types() {
         let reference = ref_type.reference();
@@ -49,6 +50,8 @@ pub fn expand(input: &DeriveInput, trait_name: &'static str) -> Result<TokenStre
             quote! { where #reference_with_lifetime #field_type: #trait_path },
         );
         let (_, ty_generics, where_clause) = generics.split_for_impl();
+        let impl_generics = crate::utils::replace_self(&impl_generics, &self_ty);
+        let where_clause = crate::utils::replace_self(&where_clause, &self_ty);
 
         let casted_trait = &quote! {
             <#reference_with_lifetime #field_type as #trait_path>
